@@ -72,6 +72,7 @@ type pathState struct {
 	hashes     []*hashApp
 	hstates    map[*Value]*hashState
 	proveMemo  map[int]bool
+	pemLen     int
 	uniq       int
 	facts      factTab
 	binds      *bindTab
